@@ -593,6 +593,29 @@ def site_guard(s, guards):
     return g
 
 
+def cycle_admit(M, E, tables, unknown):
+    """Abstract tags for which cycles_check marks a declaration of a definition cycle as a
+    reference point (`is_recursive = true`) - per tag, by executing its MIR with get_tag overridden."""
+    try:
+        f = M.one(r"^(typecheck::)?cycles_check$")
+    except KeyError as e:
+        unknown.append(str(e))
+        return None
+    adm = set()
+    for t in tables.tags:
+        ex = ms.Executor([M], enums=E, inline=[r"typecheck::<impl[^>]*>::is_\w+$"], max_paths=4000)
+        ex.call_hook = lambda callee, fs, args, t=t: ("aggr", "TagWrap", (tag_value(t),), None) if fs.endswith("typecheck::get_tag") else None
+        hit = False
+        for p in ex.run(f):
+            for e in p.events:
+                if e[0] == "store" and e[3] == ms.TRUE and "core_mut" in ms.show(e[1]):
+                    hit = True
+        unknown += ex.unknown
+        if hit:
+            adm.add(t)
+    return adm
+
+
 def render(site, prod, mode):
     key = (site["root"], site["sub"])
     hole = prod["snippet"]
@@ -600,17 +623,17 @@ def render(site, prod, mode):
         t = TEMPLATES.get(key)
         if not t:
             return None
-        return {"main.oal": PRELUDE + t.replace("HOLE", hole) + "\n"}
+        return {"main.oal": PRELUDE + prod.get("prelude", "") + t.replace("HOLE", hole) + "\n"}
     if mode == "let":
         t = TEMPLATES.get(key)
         if not t:
             return None
-        return {"main.oal": PRELUDE + "let v1 = " + hole + ";\n" + t.replace("HOLE", "v1") + "\n"}
+        return {"main.oal": PRELUDE + prod.get("prelude", "") + "let v1 = " + hole + ";\n" + t.replace("HOLE", "v1") + "\n"}
     if mode == "xmod":
         x = XMOD.get(key)
         if not x:
             return None
-        return {"m.oal": x[0] + "\n", "main.oal": 'use "m.oal";\n' + PRELUDE + x[1].replace("ARG", hole) + "\n"}
+        return {"m.oal": x[0] + "\n", "main.oal": 'use "m.oal";\n' + PRELUDE + prod.get("prelude", "") + x[1].replace("ARG", hole) + "\n"}
     return None
 
 
@@ -637,6 +660,12 @@ def check():
     guards = extract_guards(M, E, ckdisp, T, unknown)
     eqs = extract_equations(M, E, T, unknown)
     prods, tagtab, valtab = producer_table(M, E, T, evdisp, unknown)
+    cyc = cycle_admit(M, E, T, unknown)
+    # a declaration that is its own alias evaluates to Reference(id, Recursion(id)); its tag is whatever its uses
+    # force (a variable if nothing does). cycles_check must reject it unless it can be cut at a schema.
+    for t in sorted(cyc or []):
+        prods.append({"id": "alias-cycle[%s]" % t, "kind": "Declaration", "sub": "cycle", "snippet": "cyc1", "tag": t, "variant": "Recursion",
+                      "prelude": "let cyc1 = cyc1;\n"})
     if unknown:
         o.inconc("MIR constructs the translator does not understand: %s" % "; ".join(sorted(set(unknown))[:4]))
     bad_tables = [("pred", k, t) for k, r in T.preds.items() for t, v in r.items() if v is None] + \
@@ -654,6 +683,7 @@ def check():
         "sites": [{k: s[k] for k in ("kind", "eval", "cast", "root", "sub", "via")} for s in sites],
         "guards": {r: [(s, sorted(a), fn) for s, a, fn in v] for r, v in guards.items()},
         "equations": {r: [(s, sorted(a)) for s, a in v] for r, v in eqs.items()},
+        "cycles_check_marks_recursive": sorted(cyc) if cyc is not None else None,
     }
     o.assumptions = ["a pass-through node (Terminal, SubExpression, Variable, Declaration, Application, Binding) has the tag and the value of what it stands for",
                      "unresolved tag variables are treated separately (cross-module mode): within one module every tag is determined by unification",
